@@ -115,7 +115,7 @@ def history(rng, mode=None, cfg=None, state=None, nops=None, family="mixed"):
         elif x < 0.68 and not plain:
             ops.append({"op": "enableRule", "loc": loc, "id": rid(loc), "enable": rng.random() < 0.4})
         elif x < 0.72:
-            ops.append({"op": "clear", "loc": loc})
+            ops.append({"op": "clear" if rng.random() < 0.7 else "deleteLoc", "loc": loc})
         elif x < 0.90:
             if scheduled and rng.random() < 0.85:
                 l, i = rng.choice(scheduled)
